@@ -310,6 +310,8 @@ def api_case(ctx, rng, explicit=None, shrink=True):
     if case.get("via_loader"):
         feats.add("built-by-loader")
     problems, filtered = eval_case(ctx, case)
+    if filtered is not None:
+        ctx.distinct("filtered-structures", (case["filter"].get("mode"), [[len(g) for g in ch] for ch in filtered]))
     ntasks = max(sum(1 for _ in gen.leaf_specs(ch["schedule"])) for ch in case["challenges"])
     ctx.case(("api", case), bool(case["filter"].get("mode")) and ntasks >= 2, feats)
     if ntasks <= 4 and len(case["challenges"]) == 1:
@@ -352,6 +354,9 @@ WORKLOADS = [
 
 def run_shard(ctx):
     total = sum(w for _, w, _ in WORKLOADS)
+    if ctx.shard == 0:
+        for case in gen.directed_cases():
+            api_case(ctx, None, explicit=case, shrink=False)  # kept as written: the first recorded witness is the documented shape
     i = 0
     while ctx.more():
         slot = i % total
@@ -392,7 +397,7 @@ def replay(ctx, rec):
 
 
 MANIFEST = {
-    "text": "Exploration (API part): ~2*10^4 (quick) / ~10^6 (thorough) generated tracks x filter lists go through the real command-line list parsing and the real "
+    "text": "Exploration (API part): 1-2*10^4 (quick) / 10^5 and more (thorough, time-bounded) generated tracks x filter lists go through the real command-line list parsing and the real "
     "TaskFilterTrackProcessor; the schedules of every challenge afterwards are compared with a documentation-derived reference filter (exactly the selected tasks, original "
     "order and grouping, every task attribute equal to a snapshot taken before), must contain no element without tasks, and are given to the real Allocator and a real "
     "Driver that is walked through every join point (C02 monitors). Malformed filter values must raise SystemSetupError. Holds on the executions produced, not beyond.",
